@@ -11,8 +11,8 @@ from .. import build, leanb, stages
 KEYS, VALS = (1, 2, 3), (10, 11)
 
 
-def enum_histories(maxlen):
-    """All valid histories of length 1..maxlen over 3 keys x 2 values with switches to every existing revision."""
+def enum_histories(maxlen, KEYS=KEYS, VALS=VALS):
+    """All valid histories of length 1..maxlen over the keys x values with switches to every existing revision."""
     out = []
 
     def rec(prefix, cnt, left):
@@ -46,7 +46,8 @@ def random_history(rng, n):
 def compare(ctx, hist, impl, model):
     """Return number of disagreements; report violations."""
     bad = 0
-    for h, i, m in zip(hist, impl, model):
+    order = sorted(range(len(hist)), key=lambda j: len(hist[j]))
+    for h, i, m in ((hist[j], impl[j], model[j]) for j in order):
         parts = m.split(" M ")
         valid = parts[0]
         mo, so = parts[1].split(" S ") if len(parts) > 1 else ("", "")
@@ -67,7 +68,7 @@ def compare(ctx, hist, impl, model):
                        % (short, iw[n] if n < len(iw) else i, sw[n]),
                        {"component": "vmap", "history": short, "impl": " ".join(iw[:n + 1]), "spec": " ".join(sw[:n + 1])})
             bad += 1
-            if bad > 20:
+            if bad >= 3:
                 break
     return bad
 
@@ -89,8 +90,10 @@ def run(ctx):
     stages.cxx_stage(ctx, "ndebug")
     maxlen = 5 if ctx.quick else 6
     hist = enum_histories(maxlen)
+    seen = set(hist)
+    hist += [h for h in enum_histories(maxlen + 1, (1, 2), (10, 11)) if h not in seen]
     nex = len(hist)
-    nrand = 300 if ctx.quick else 5000
+    nrand = 1000 if ctx.quick else 5000
     hist += [random_history(ctx.rng, ctx.rng.randrange(8, 200)) for _ in range(nrand)]
     if not ctx.quick:
         # length 7, sampled uniformly from the enumeration tree (full space ~8.6M)
@@ -108,8 +111,8 @@ def run(ctx):
         "evaluations": len(hist), "distinct_nontrivial": branching,
         "traces_validated_against_impl": len(hist),
         "exhaustive": True,
-        "rule": "all valid histories of 1..%d ops over keys {1,2,3} x values {10,11} with switches to every existing revision (exhaustive, %d), plus %d seeded random histories of length 8..200; non-trivial = distinct histories that insert after switching back (create a branch) and later switch again"
-                % (maxlen, nex, len(hist) - nex),
+        "rule": "all valid histories of 1..%d ops over keys {1,2,3} x values {10,11}, and of 1..%d+1 ops over keys {1,2} x values {10,11}, with switches to every existing revision (exhaustive, %d), plus %d seeded random histories of length 8..200; non-trivial = distinct histories that insert after switching back (create a branch) and later switch again"
+                % (maxlen, maxlen, nex, len(hist) - nex),
         "samples": [hist[nex // 2], hist[nex - 1], hist[nex][:200]],
     })
     ctx.notes["distinct_histories"] = distinct
